@@ -1099,6 +1099,12 @@ type (
 		keys map[string]bool
 		n    int // tuple width expected (1 = scalar)
 		desc string
+		// elems: the set members as rows of n components (for the Date conversion below);
+		// list: the set is a constant list (its string constants are converted to the type
+		// of the left side, as ClickHouse does); plans: per left-side shape, the converted key set
+		elems    [][]any
+		list     bool
+		plans map[string]setPlan
 	}
 	boundConst struct{ V any } // scalar subquery result
 )
@@ -1393,9 +1399,11 @@ func (b *binder) bindIn(n *In) (Expr, error) {
 			if width == 1 {
 				if row[0] != nil {
 					set.keys[valueKey(row[0])] = true
+					set.elems = append(set.elems, row[:1])
 				}
 			} else {
 				set.keys[valueKey(Tuple(row))] = true
+				set.elems = append(set.elems, row)
 			}
 		}
 		return nil
@@ -1463,7 +1471,21 @@ func (b *binder) bindIn(n *In) (Expr, error) {
 			return &Call{Name: "__inlist", Args: args}, nil
 		}
 		en := &env{b: b}
-		for _, el := range n.List {
+		list := n.List
+		if width > 1 && len(list) == width {
+			// "(a, b) IN (x, y)" / "(a, b) IN ((x, y))": a right side whose members are not
+			// tuples is ONE tuple, not a list of scalars
+			scalars := true
+			for _, el := range list {
+				if _, isT := el.(*TupleLit); isT {
+					scalars = false
+				}
+			}
+			if scalars {
+				list = []Expr{&TupleLit{Elems: list}}
+			}
+		}
+		for _, el := range list {
 			be, err := b.bind(el)
 			if err != nil {
 				return nil, err
@@ -1479,9 +1501,17 @@ func (b *binder) bindIn(n *In) (Expr, error) {
 				if len(t) != width {
 					return nil, execErr("IN: tuple sizes differ")
 				}
+			} else if width > 1 {
+				return nil, execErr("IN: a scalar in the set of a %d-tuple", width)
 			}
 			set.keys[valueKey(v)] = true
+			if t, ok := v.(Tuple); ok && width > 1 {
+				set.elems = append(set.elems, []any(t))
+			} else {
+				set.elems = append(set.elems, []any{v})
+			}
 		}
+		set.list = true
 	}
 	return set, nil
 }
@@ -1559,4 +1589,107 @@ func (b *binder) nullable(e Expr) bool {
 		}
 	}
 	return false
+}
+
+type setPlan struct {
+	keys map[string]bool // nil: the plain keys apply
+	err  error
+}
+
+// contains: membership with ClickHouse's conversion of the set's constants to the type of
+// the left side for the one cross-type case the model has — Date against String. A Date on
+// the left with 'YYYY-MM-DD' string constants in a constant list (also inside tuples) is
+// compared as Date (Set::createFromAST converts the literals to the left type; a string
+// that is not a date raises CANNOT_PARSE_DATE). Every other Date/String mix (a String
+// column of a subquery against a Date, a String on the left against Dates) is a type
+// mismatch ClickHouse resolves in version-dependent ways: ErrUnsupported, never a silent
+// "no match".
+func (s *boundSet) contains(x any) (bool, error) {
+	comps := []any{x}
+	if t, ok := x.(Tuple); ok {
+		comps = []any(t)
+	}
+	sig := make([]byte, len(comps))
+	anyDate := false
+	for i, c := range comps {
+		switch c.(type) {
+		case Date:
+			sig[i] = 'd'
+			anyDate = true
+		case string:
+			sig[i] = 's'
+		default:
+			sig[i] = '-'
+		}
+	}
+	// which components need a conversion, judged on the whole set (once per left-side shape)
+	if pl, ok := s.plans[string(sig)]; ok {
+		if pl.err != nil {
+			return false, pl.err
+		}
+		if pl.keys == nil {
+			return s.keys[valueKey(x)], nil
+		}
+		return pl.keys[valueKey(x)], nil
+	}
+	if s.plans == nil {
+		s.plans = map[string]setPlan{}
+	}
+	remember := func(keys map[string]bool, err error) (bool, error) {
+		s.plans[string(sig)] = setPlan{keys: keys, err: err}
+		if err != nil {
+			return false, err
+		}
+		if keys == nil {
+			return s.keys[valueKey(x)], nil
+		}
+		return keys[valueKey(x)], nil
+	}
+	need := false
+	for _, el := range s.elems {
+		for i := range comps {
+			if i >= len(el) {
+				continue
+			}
+			_, elStr := el[i].(string)
+			_, elDate := el[i].(Date)
+			switch {
+			case sig[i] == 'd' && elStr:
+				if !s.list {
+					return remember(nil, unsupported("IN: Date on the left against a String column of a subquery/table"))
+				}
+				need = true
+			case sig[i] == 's' && elDate:
+				return remember(nil, unsupported("IN: String on the left against a set of Date values"))
+			}
+		}
+	}
+	if !need || !anyDate {
+		return remember(nil, nil)
+	}
+	ks := map[string]bool{}
+	for _, el := range s.elems {
+		conv := make([]any, len(el))
+		copy(conv, el)
+		for i := range conv {
+			if i < len(sig) && sig[i] == 'd' {
+				if str, isStr := conv[i].(string); isStr {
+					d, err := ParseDate(str)
+					if err != nil {
+						return remember(nil, err)
+					}
+					if len(str) != 10 {
+						return remember(nil, unsupported("IN: date-time string %q against a Date", str))
+					}
+					conv[i] = d
+				}
+			}
+		}
+		if s.n == 1 {
+			ks[valueKey(conv[0])] = true
+		} else {
+			ks[valueKey(Tuple(conv))] = true
+		}
+	}
+	return remember(ks, nil)
 }
